@@ -1202,3 +1202,18 @@ mutant("c14-discrete-column-major", "C14", (T, "        return self.values.flatt
 mutant("c14-discrete-odd-keeps-height-token", "C14", (T, "            self.height = to_float(as_list[-1])\n            del as_list[-1]\n", "            self.height = to_float(as_list[-1])\n"), "T6/Discrete/parameters")
 mutant("c14-function-configure-no-load", "C14", (T, "        self.formula = parameters\n        self.load()\n", "        self.formula = parameters\n"), "T6/Function/parameters")
 mutant("c14-linear-reversed", "C14", (T, "        self.coefficients = [to_float(p) for p in parameters.split()]", "        self.coefficients = [to_float(p) for p in reversed(parameters.split())]"), "T6/Linear/parameters")
+
+# ------------------------------------------------------------------------------------------ C15 alias plumbing
+mutant("c15-package-of-star-keeps-alias", "C15", (L, """            elif settings.alias == "*":
+                package = \"\"""", """            elif settings.alias == "*":
+                package = settings.alias"""), "R8/Representation.package_of/prefixes")
+mutant("c15-repr-float-no-prefix", "C15", (L, """            infinity = f"{self.package_of(settings)}{np.abs(x)!r}\"""", """            infinity = f"{np.abs(x)!r}\""""), "R5/Representation.repr_float/prefix")
+mutant("c15-class-name-always-qualified", "C15", (O, """        package = ""
+        if qualname:
+            from .library import representation
+
+            package = representation.package_of(x)
+""", """        from .library import representation
+
+        package = representation.package_of(x)
+"""), "R5/Operation.class_name/prefix")
